@@ -14,7 +14,9 @@
 (*   entry    [w, n, k, ip, t]                                             *)
 (*              w, n   the pattern: exact name n (w = FALSE) or the        *)
 (*                     multi-level wildcard *.n (w = TRUE)                 *)
-(*              k      "ip4" | "ip6"  an address (ip) of that family       *)
+(*              k      "ip4" | "ip6"  an address (ip) of that family; the  *)
+(*                     family is that of the text written: an IPv4-mapped  *)
+(*                     IPv6 literal is "ip6"                               *)
 (*                     "cname"        a canonical name (t)                 *)
 (*                     "A" | "AAAA"   the exception keywords               *)
 (*   table    SEQUENCE of entries (order is part of the input: duplicates  *)
